@@ -72,11 +72,12 @@ def addAll (app : Bool) (xs old : List Elem) : List Elem :=
 /-- … and unsetup direction -/
 def removeAll (xs old : List Elem) : List Elem := xs.foldl (fun np v => PathAlg.removeL v np) old
 
-theorem applyL_true (app : Bool) (xs old : List Elem) : PathAlg.applyL app true xs old = PathAlg.uniq (addAll app xs old) := by
+theorem applyL_true (app : Bool) (xs old : List Elem) :
+    PathAlg.applyL app true xs old = PathAlg.uniq (addAll app (PathAlg.loopVals app true xs) old) := by
   simp [PathAlg.applyL, addAll]
 
 theorem applyL_false (app : Bool) (xs old : List Elem) : PathAlg.applyL app false xs old = PathAlg.uniq (removeAll xs old) := by
-  simp [PathAlg.applyL, removeAll]
+  simp [PathAlg.applyL, PathAlg.loopVals, removeAll]
 
 theorem mem_addAll (app : Bool) (xs : List Elem) : ∀ old y, y ∈ addAll app xs old ↔ y ∈ xs ∨ y ∈ old := by
   induction xs with
@@ -150,7 +151,7 @@ theorem filter_removeAll (f : Elem → Bool) (xs : List Elem) (hx : ∀ x ∈ xs
     · simp [ha]
 
 theorem pathOf_addPath_same (e : Env) (var : Str) (xs : List Elem) (b : Bool) :
-    (e.addPath var xs b).pathOf var = PathAlg.uniq (addAll b xs (e.pathOf var)) := by
+    (e.addPath var xs b).pathOf var = PathAlg.uniq (addAll b (PathAlg.loopVals b true xs) (e.pathOf var)) := by
   simp [Env.addPath, Env.pathOf, aget_aset_same, applyL_true]
 
 theorem pathOf_removePath_same (e : Env) (var : Str) (xs : List Elem) :
@@ -164,6 +165,7 @@ theorem pathOf_addPath_other (e : Env) (var var2 : Str) (xs : List Elem) (b : Bo
 theorem mem_pathOf_addPath_same (e : Env) (var : Str) (xs : List Elem) (y : Elem) (b : Bool) :
     y ∈ (e.addPath var xs b).pathOf var ↔ y ∈ xs ∨ y ∈ e.pathOf var := by
   rw [pathOf_addPath_same, PathAlg.mem_uniq, mem_addAll]
+  cases b <;> simp [PathAlg.loopVals]
 
 theorem mem_pathOf_addPath (e : Env) (var var2 : Str) (xs : List Elem) (y : Elem) (b : Bool)
     (h : y ∈ (e.addPath var xs b).pathOf var2) : (var2 = var ∧ y ∈ xs) ∨ y ∈ e.pathOf var2 := by
